@@ -140,28 +140,25 @@ outcome of opening / reading a file (`S` = the exceptions `open` and the reader 
 object of the class of the graph type), all random draws and every recursion budget:
 `make_graph_from_spec` returns a graph, or raises `ValueError`, or
 
-* `IndexError` — only when the empty string is one of the words after the first (`parse_indexError_iff`),
 * `RecursionError` — only for the construction `regular` (`regular_restart_budget_witness`),
 * an exception of `S` (an `OSError` of `open`, which the argparse actions turn into a usage error).
 
-No `TypeError`, `KeyError`, `AssertionError`, `ZeroDivisionError`, no third-party exception. -/
+No `IndexError` (C15-S1 is fixed: `parse_only_valueError`), `TypeError`, `KeyError`, `AssertionError`,
+`ZeroDivisionError`, no third-party exception. -/
 theorem make_graph_clean {ty : String} (h : Known ty) (w : World) (toks : List String) (S : Err → Prop)
     (hext : ∀ g, w.ext = some g → kindOK .simple g)
     (hopen : ∀ e, w.openFile = .error e → S e)
     (hread : ∀ ds e, w.readGraph ds = .exc e → S e)
     (hkind : ∀ gt, gtypeOf ty = some gt → Returns (kindOK gt) w.readGraph)
     (ds : List Draw) (err : Err) (herr : makeGraphFromSpec w ty toks ds = .exc err) :
-    err = .valueError ∨ (err = .indexError ∧ "" ∈ toks.tail) ∨
-    (err = .recursion ∧ toks.head? = some "regular") ∨ S err := by
+    err = .valueError ∨ (err = .recursion ∧ toks.head? = some "regular") ∨ S err := by
   unfold makeGraphFromSpec at herr
   cases hp : parseGraphArgument ty toks w.dot with
   | error e =>
     rw [hp] at herr
     simp only [raise_exc] at herr
     subst herr
-    rcases parse_only_valueError_or_indexError h w.dot toks e hp with h1 | h1
-    · exact Or.inl h1
-    · exact Or.inr (Or.inl h1)
+    exact Or.inl (parse_only_valueError h w.dot toks e hp)
   | ok p =>
     rw [hp] at herr
     have hwf := parse_wellFormed h w.dot toks p hp
@@ -189,7 +186,7 @@ theorem make_graph_clean {ty : String} (h : Known ty) (w : World) (toks : List S
           have hfp := request_fromParser h w toks p hp gt hgt k as hcc.1 hext
           rcases obtainGraph_only_parsed gt _ w.ext w.fuel hfp ds err herr with h6 | ⟨h6, h7⟩
           · exact Or.inl h6
-          · refine Or.inr (Or.inr (Or.inl ⟨h7, ?_⟩))
+          · refine Or.inr (Or.inl ⟨h7, ?_⟩)
             have hreg : c = "regular" := hcc.2.mp h6
             rw [parse_construction_head h w.dot toks p hp c h1, hreg]
       | fileWithFormat f fn hc hf h1 h2 h3 h4 =>
@@ -209,8 +206,7 @@ where
       (ds : List Draw) (err : Err) (p : GSpec.Parsed) (hp : parseGraphArgument ty toks w.dot = .ok p)
       (gt : GType) (hgt : gtypeOf ty = some gt) (fn ff : String)
       (herr : (readSource w ty fn ff >>= finish gt (request w default [] p)) ds = .exc err) :
-      err = .valueError ∨ (err = .indexError ∧ "" ∈ toks.tail) ∨
-      (err = .recursion ∧ toks.head? = some "regular") ∨ S err := by
+      err = .valueError ∨ (err = .recursion ∧ toks.head? = some "regular") ∨ S err := by
     obtain ⟨_, hf, _, _, _⟩ := known_tables h w.dot
     rw [bind_exc] at herr
     rcases herr with herr | ⟨G0, mid, h0, herr⟩
@@ -218,13 +214,13 @@ where
       cases ho : w.openFile with
       | error e =>
         rw [ho] at herr; simp only [raise_exc] at herr
-        exact Or.inr (Or.inr (Or.inr (herr ▸ hopen e ho)))
+        exact Or.inr (Or.inr (herr ▸ hopen e ho))
       | ok u =>
         rw [ho] at herr
         simp only [hf] at herr
         split at herr
         · exact Or.inl (valueError_only _ _ herr)
-        · exact Or.inr (Or.inr (Or.inr (hread _ _ herr)))
+        · exact Or.inr (Or.inr (hread _ _ herr))
     · have hk0 : kindOK gt G0 := by
         unfold readSource at h0
         cases ho : w.openFile with
@@ -267,10 +263,10 @@ def exampleWorld : World :=
     ext := none, openFile := .error .valueError, readGraph := RM.raise .valueError, fuel := 1, dot := true }
 
 /-- non-vacuity: `pyramid 1 save f.kthlist` builds the pyramid and hands THAT graph to `writeGraph`;
-`pyramid 1 save f.txt` is refused (no format can be guessed); `pyramid 1 ''` is the `IndexError` -/
+`pyramid 1 save f.txt` is refused (no format can be guessed); `pyramid 1 ''` is refused (C15-S1 regression) -/
 example : (∃ G, makeGraphFromSpec exampleWorld "dag" ["pyramid", "1", "save", "f.kthlist"] [] = .ok (G, some G) []) ∧
     makeGraphFromSpec exampleWorld "dag" ["pyramid", "1", "save", "f.txt"] [] = .exc .valueError ∧
-    makeGraphFromSpec exampleWorld "dag" ["pyramid", "1", ""] [] = .exc .indexError ∧
+    makeGraphFromSpec exampleWorld "dag" ["pyramid", "1", ""] [] = .exc .valueError ∧
     makeGraphFromSpec exampleWorld "dag" ["pyramid", "x"] [] = .exc .valueError := by
   exact ⟨⟨_, rfl⟩, rfl, rfl, rfl⟩
 
